@@ -1,5 +1,5 @@
-(* Model of the printers: Constant.String (ast/ast.go:562), FormatNumber (:87),
-   FormatFloat64 (:92, after fix F6), Escape (ast/serde.go:18) with the part of
+(* Model of the printers: Constant.String (ast/ast.go:562, after fix N18), FormatNumber
+   (:87), FormatFloat64 (:92, after fix F6), Escape (ast/serde.go:18, after fix F5) with the part of
    utf8.DecodeRuneInString it uses. Executable definitions only; proofs are in
    PrintProofs.v.
 
@@ -54,6 +54,7 @@ Definition esc_ascii (is_bytes : bool) (c : Z) : list Z :=
   else if c =? 34 then (if is_bytes then esc_x c else [92; 34])
   else if c =? 10 then (if is_bytes then esc_x c else [92; 110])
   else if c =? 9 then (if is_bytes then esc_x c else [92; 116])
+  else if c =? 13 then esc_x c                      (* fix F5: CR is \x0d in both modes *)
   else if c =? 92 then (if is_bytes then esc_x c else [92; 92])
   else [c].
 
@@ -113,6 +114,15 @@ Fixpoint esc_string (skip : nat) (s : list Z) : option (list Z) :=
       end
   end.
 
+(* writeAfterBracket (ast/ast.go, fix N18): the text of the first element of a list
+   or map, right after '[', is set off by a blank when it starts with '-' or '+'
+   ("[-" and "[+" are tokens of the temporal operators). *)
+Definition after_bracket (t : list Z) : list Z :=
+  match t with
+  | c :: _ => if (c =? 45) || (c =? 43) then 32 :: t else t
+  | [] => t
+  end.
+
 (* ---- FormatFloat64 ------------------------------------------------------ *)
 (* exponent field all ones: +Inf, -Inf, NaN *)
 Definition float_special (bits : Z) : bool := (bits / 2 ^ 52) mod 2048 =? 2047.
@@ -159,12 +169,12 @@ Section Print.
       | CCell t n f s =>
           match t with
           | PairS => s_pair_open ++ print_gen f ++ s_comma ++ print_gen s ++ [41]
-          | ListS => 91 :: print_gen f ++ print_ltail s ++ [93]
+          | ListS => 91 :: after_bracket (print_gen f) ++ print_ltail s ++ [93]
           | MapS =>
-              91 :: match f with
-                    | CCell _ _ k v => print_gen k ++ s_colon ++ print_gen v
-                    | CLeaf _ _ _ => []
-                    end ++ print_mtail s ++ [93]
+              91 :: after_bracket (match f with
+                                   | CCell _ _ k v => print_gen k ++ s_colon ++ print_gen v
+                                   | CLeaf _ _ _ => []
+                                   end) ++ print_mtail s ++ [93]
           | StructS =>
               123 :: match f with
                      | CCell _ _ k v => print_gen k ++ s_colon ++ print_gen v
